@@ -115,10 +115,20 @@ pub fn eval(ctx: &Ctx, c: &Case) -> Verdict {
     let scratch = crate::fw::scratch_base().join(format!("rwsv-c12-{}-{}", std::process::id(), crate::fw::hash64(&format!("{:?}", c))));
     let _ = std::fs::remove_dir_all(&scratch);
     if std::fs::create_dir_all(&scratch).is_err() { return Verdict::Discard; }
-    let verdict = eval_in(ctx, c, &scratch);
+    // the ports are fixed by the case's sources, not by Server::start: a port lost to a parallel process is answered by drawing new ones
+    let mut verdict = Verdict::Discard;
+    for _attempt in 0..6 {
+        PORT_IN_USE.with(|p| p.set(false));
+        verdict = eval_in(ctx, c, &scratch);
+        if !PORT_IN_USE.with(|p| p.get()) { break; }
+        let _ = std::fs::remove_file(scratch.join("rws.config.toml"));
+    }
+    if PORT_IN_USE.with(|p| p.get()) { ctx.inconclusive("six attempts in a row lost their port to another process"); }
     let _ = std::fs::remove_dir_all(&scratch);
     verdict
 }
+
+thread_local! { static PORT_IN_USE: std::cell::Cell<bool> = std::cell::Cell::new(false); }
 
 fn eval_in(ctx: &Ctx, c: &Case, docroot: &std::path::Path) -> Verdict {
     // expected effective values
@@ -152,7 +162,7 @@ fn eval_in(ctx: &Ctx, c: &Case, docroot: &std::path::Path) -> Verdict {
         Ok(s) => s,
         Err(e) => {
             // the server did not come up where M-CONF expects it: find out where it went
-            if e.contains("Address already in use") { ctx.inconclusive(&format!("port {} in use", port)); return Verdict::Discard; }
+            if e.contains("Address already in use") { PORT_IN_USE.with(|p| p.set(true)); return Verdict::Discard; }
             let log = e.clone();
             let sig = if log.contains("Setting up http://") { "server-listens-elsewhere" } else { "server-did-not-start" };
             return ctx.judge(vec![(format!("{}:expected-{}:{}", sig, "ip-port", if port == 7878 { "default" } else { "set" }), format!("expected http://{}:{}; {}; {}", ip, port, crate::fw::util::lossy(log.as_bytes(), 300), ctxt))], true, vec![]);
